@@ -2,9 +2,9 @@
 
 CHECK = {
     "harnesses": [
-        {"exe": "c14_scaling", "flavour": "plain", "cases": (40000, 2000000), "procs": (8, 14), "subs": ["scaling"]},
+        {"exe": "c14_scaling", "flavour": "plain", "cases": (100000, 2000000), "procs": (8, 14), "subs": ["scaling"]},
     ],
-    "min_nontrivial": (5000, 200000),
+    "min_nontrivial": (20000, 400000),
     "timeout": (900, 7200),
     "rule": ("rapidcheck-generated data sources of 1..300 rows whose identity generators produce 1..20 flatten columns: scalar / structured "
              "continuous features (float64, float32, int16, uint8 storage) mixed with single- and multi-label categorical ones, every "
